@@ -665,6 +665,8 @@ KNOWN_FEATURES = {
     "F16f_unhashable_internal_arg": lambda sub, r: sub in ("programs", "multi_program") and _has_unhashable_internal_arg(sub, r),
     "F16h_numeric_tuple_to_list": lambda sub, r: sub in ("programs", "multi_program", "args") and _has_numeric_tuple(sub, r),
     "F16i_none_tag_dropped": lambda sub, r: sub in ("programs", "multi_program") and _has_none_tag(sub, r),
+    "F16m_object_tag_reuses_other_kind": lambda sub, r: sub in ("programs", "multi_program") and any(
+        t[0] in ("qobj", "opobj") for t in _all_tag_recipes(r)),
 }
 
 
@@ -688,7 +690,27 @@ def _program_labels(c, have, want_syms):
             tag_only = True
         untagged.setdefault(u, op.tags)
     symbolic = any(cirq.is_parameterized(op) for op in all_ops)
+    # cross-kind collisions: a raw string tag (op / moment / circuit level) spelling the proto id of a qubit of the program
+    qids = {G.proto_id_of(q) for op in all_ops if not isinstance(op.untagged.without_classical_controls().untagged, cirq.CircuitOperation)
+            for q in op.qubits}
+    all_tags = tags + [t for m in moments for t in m.tags] + [t for cc in circs for t in cc.tags]
+    spells = {t for t in all_tags if isinstance(t, str) and t in qids}
+    first_q, first_t = {}, {}
+    for i, m in enumerate(c):
+        for op in m:
+            for q in op.qubits:
+                first_q.setdefault(G.proto_id_of(q), i)
+            for t in op.tags:
+                if isinstance(t, str):
+                    first_t.setdefault(t, i)
+        for t in m.tags:
+            if isinstance(t, str):
+                first_t.setdefault(t, i)
     return {
+        "string_tag_spells_qubit_id": bool(spells), "colliding_tag_before_qubit": any(first_t.get(t, 10 ** 9) < first_q.get(t, -1) for t in spells),
+        "colliding_tag_after_qubit": any(first_t.get(t, -1) >= first_q.get(t, 10 ** 9) for t in spells),
+        "numeric_tags_equal_across_types": len({(type(t), t) for t in all_tags if isinstance(t, (bool, int, float))}) > len(
+            {t for t in all_tags if isinstance(t, (bool, int, float))}),
         "repeated_constant": rep_op or rep_moment or rep_tag, "repeated_op": rep_op, "repeated_moment": rep_moment, "repeated_tag": rep_tag,
         "ops_differ_only_in_tag": tag_only, "symbolic": symbolic, "has_subcircuit": len(circs) > 1,
         "has_controls": any(op.classical_controls for op in all_ops), "nontrivial": (rep_op or rep_moment or rep_tag) and symbolic,
@@ -741,7 +763,7 @@ def _outside_format(circuits):
                     ser.append("tags outside a classically controlled operation")
                 if any(_condition_outside(k) for k in op.classical_controls):
                     ser.append("condition folded to a constant")
-                if any(isinstance(t, G.UnknownTag) for t in op.tags):
+                if any(isinstance(t, (G.UnknownTag, cirq.Qid, cirq.Operation)) for t in op.tags):
                     ser.append("unknown tag type")
                 base = op.untagged.without_classical_controls().untagged
                 if isinstance(base, cirq.CircuitOperation):
@@ -766,9 +788,9 @@ def _outside_format(circuits):
                         isinstance(t, cg.TwoPulseFSimTag) for t in op.tags):
                     ser.append("both FSim translation tags")
             for m in c:
-                if any(isinstance(t, G.UnknownTag) for t in m.tags):
+                if any(isinstance(t, (G.UnknownTag, cirq.Qid, cirq.Operation)) for t in m.tags):
                     ser.append("unknown tag type")
-            if any(isinstance(t, G.UnknownTag) for t in c.tags):
+            if any(isinstance(t, (G.UnknownTag, cirq.Qid, cirq.Operation)) for t in c.tags):
                 ser.append("unknown tag type")
     return ser, de
 
@@ -1159,6 +1181,8 @@ def oracle_sweeps(r):
     return {"depth": R.sweep_depth(tree), "nontrivial": R.sweep_depth(tree) >= 2, "n_assignments": min(len(want), 9),
             "has_units": any((n[0] == "lin" and n[5]) or (n[0] == "pts" and any(v[0] == "u" for v in n[2])) for n in nodes),
             "has_metadata": any(n[0] in ("lin", "pts", "frv") and n[-1] is not None for n in nodes), "exact_equal_checked": dyadic and plain,
+            "mixed_units_in_one_sweep": any((n[0] == "lin" and isinstance(n[5], list)) or (n[0] == "pts" and len({v[2] for v in n[2] if v[0] == "u"}) > 1)
+                                            for n in nodes),
             "three_factors": any(n[0] in ("zip", "prod") and len(n[1]) >= 3 for n in nodes), "has_" + "_".join(sorted(kinds & {"concat"})) if "concat" in kinds else "no_concat": True,
             "has_ziplongest": "ziplongest" in kinds, "has_list": "list" in kinds, "has_frv": "frv" in kinds, "f64": bool(r["f64"])}
 
@@ -1169,8 +1193,11 @@ def _dyadic(x):
 
 def _dyadic_node(n):
     if n[0] == "lin":
-        return _dyadic(n[2]) and _dyadic(n[3])
+        us, ue = R.lin_units(n[5])
+        return _dyadic(n[2]) and _dyadic(n[3]) and us == ue  # a converted stop is compared by value, not by object equality
     if n[0] == "pts":
+        if len({v[2] for v in n[2] if v[0] == "u"}) > 1:
+            return False
         return all(v[0] in ("str", "none") or (v[0] == "i" and abs(v[1]) < 2 ** 24) or (v[0] in ("f", "u") and _dyadic(v[1])) for v in n[2])
     if n[0] == "list":
         return False
